@@ -494,3 +494,47 @@ Definition c05_session_check (c : c05_session_case) : bool :=
 
 Definition c05_session_show (c : c05_session_case) : list sout :=
   let '(objs, ops, obs) := c in snd (srun (mkss objs None) ops).
+
+(* ================================================================================================ *)
+(* Round 6: an outcome is a VALUE.  The harness keeps every exception object it caught and reads its   *)
+(* contents a second time after all later operations of the case (and a further, unrelated validation) *)
+(* have run; what is read late is compared with the same model output as what was read at once.        *)
+
+Definition c05_validate_case2 : Type := (c05_validate_case * oout)%type.
+Definition c05_validate_check2 (c : c05_validate_case2) : bool :=
+  let '(c1, late) := c in
+  c05_validate_check c1 && (let '(s, e, _) := c1 in verdict_matches (validate_entry s e) late).
+
+Fixpoint aouts_match (xs : list aout) (ls : list oout) : bool :=
+  match xs, ls with
+  | [], [] => true
+  | a :: xs', o :: ls' => verdict_matches (aout_verdict a) o && aouts_match xs' ls'
+  | _, _ => false
+  end.
+
+Definition c05_hist_case2 : Type := (c05_hist_case * list oout)%type.
+Definition c05_hist_check2 (c : c05_hist_case2) : bool :=
+  let '(c1, late) := c in
+  c05_hist_check c1 && (let '(i, es, _, _) := c1 in aouts_match (snd (run (init_frame i) es)) late).
+
+Fixpoint souts_late_match (xs : list sout) (ls : list (option oout)) : bool :=
+  match xs, ls with
+  | [], [] => true
+  | x :: xs', l :: ls' =>
+      match x, l with
+      | SOVerdict v, Some o => verdict_matches v o
+      | SOAppend a _, Some o => verdict_matches (aout_verdict a) o
+      | SOUnit, None => true
+      | _, _ => false
+      end && souts_late_match xs' ls'
+  | _, _ => false
+  end.
+
+Definition c05_session_case2 : Type := (c05_session_case * list (option oout))%type.
+Definition c05_session_check2 (c : c05_session_case2) : bool :=
+  let '(c1, late) := c in
+  c05_session_check c1 && (let '(objs, ops, _) := c1 in souts_late_match (snd (srun (mkss objs None) ops)) late).
+
+Definition c05_validate_show2 (c : c05_validate_case2) := c05_validate_show (fst c).
+Definition c05_hist_show2 (c : c05_hist_case2) := c05_hist_show (fst c).
+Definition c05_session_show2 (c : c05_session_case2) := c05_session_show (fst c).
